@@ -75,6 +75,11 @@ def gen_rules(rnd, pool, max_rules=5):
             # a rule restated verbatim further down the list (defaults and overrides concatenated): its later
             # position is what counts
             line, rule = rnd.choice(made)
+            if rnd.random() < 0.6:
+                # ... after a broader rule with the opposite verdict
+                wide = rnd.choice(["*", "*", chr(rule["pat"][0]) + "*" if rule["pat"] and rule["pat"][0] != 42 else "*"])
+                parts.append(wide + "=" + ("false" if rule["on"] else "true"))
+                rules.append({"pat": units(wide), "typed": "", "on": not rule["on"]})
             parts.append(line)
             rules.append(dict(rule))
             continue
